@@ -227,9 +227,17 @@ def gen_ops(rng, spec, n):
         elif k < 0.96:
             ops.append(("settermination", gen_termination(rng, spec["solver"]) or ("never",)))
         elif k < 0.975 and spec.get("monitor_ops"):
-            ops.append(("setstepmon", rng.random() < 0.2, rng.choice(["monitor", "monitor", "none", "null"])))
+            kindm = rng.choice(["monitor", "monitor", "none", "null", "k", "k"])
+            if kindm == "k":
+                # a monitor with a cost multiplier: the records it takes over from the old monitor must read back unchanged
+                ops.append(("setstepmon", rng.random() < 0.2, "k", rng.choice([-1.0, 4.0, 0.5, -2.0, 1.0])))
+            else:
+                ops.append(("setstepmon", rng.random() < 0.2, kindm))
         elif k < 0.985 and spec.get("monitor_ops"):
-            ops.append(("setevalmon", rng.random() < 0.3))
+            if rng.random() < 0.35:
+                ops.append(("setevalmon", rng.random() < 0.3, rng.choice([-1.0, 4.0, 0.5])))
+            else:
+                ops.append(("setevalmon", rng.random() < 0.3))
         else:
             ops.append(("solve",))
     return ops
